@@ -32,13 +32,16 @@ CSV = {
     "c_v6bare": ["2001:db8::3", "2001:db8:0:0::3"],
     "c_uri": ["dns://10.0.0.3:55?tcpport=56", "dns://10.0.0.3:55/?tcpport=56"],
     "c_uri6": ["dns://[2001:db8::4]", "dns://[2001:db8::4]:53"],
-    "c_ll": ["[fe80::1]:53%lo", "fe80::1%lo", "dns://[fe80::1%lo]"],
+    "c_ll": ["[fe80::1]:53%lo", "fe80::1%lo", "dns://[fe80::1%lo]", "dns://[fe80::1%lo]:53?tcpport=53"],
     "c_dup": ["10.0.0.1:53", "10.0.0.1"],
     "c_empty": ["", " "],
     "c_badport": ["1.2.3.4:", "1.2.3.4:Z", "[::1]:", "1.2.3.4:99999999"],
     "c_badaddr": ["foo", "999.1.1.1", "1.2.3.4.5", "::g", "dns://", "dns://foo.example"],
     "c_badbr": ["[::1", "[1.2.3.4", "[]", "]"],
     "c_tls": ["dns+tls://1.2.3.4", "dns+https://1.2.3.4", "http://1.2.3.4"],
+    "c_badscope": ["[fe80::1]:53%nonexistent0", "dns://[fe80::1%nonexistent0]", "dns://[fe80::1%" + "a" * 20 + "]",
+                   "dns://[fe80::1%" + "b" * 40 + "]:53?tcpport=54", "dns://[fe80::1%" + "c" * 250 + "]",
+                   "[fe80::1]:53%" + "d" * 40, "fe80::1%" + "e" * 16, "dns://[fe80::1%" + "f1" * 8 + "]", "dns://[fe80::1%]"],
     "c_bin": [b"\x01\x02\xff", b"10.0.0.9\x07", b"dns://\xff\xfe"],
     "c_long": [b"1" * 10240, b"dns://" + b"a" * 10240, b"[" + b":" * 10240 + b"]"],
 }
@@ -128,7 +131,7 @@ def check_one(rec, recs, tx):
     exp = rec["expect"]
     st, leak, detail = B.status_of(recs)
     bad = sorted(set(t for t in rec["toks"] if t in {"sortlist": ("s_badmask", "s_badaddr", "s_bin", "s_long"),
-                                                      "csv": ("c_badport", "c_badaddr", "c_badbr", "c_tls", "c_bin", "c_long"),
+                                                      "csv": ("c_badport", "c_badaddr", "c_badbr", "c_tls", "c_bin", "c_long", "c_badscope"),
                                                       "hosts": ("h_badip", "h_noname", "h_bin", "h_long", "h_comment", "h_binname"),
                                                       "aliases": ("a_lone", "a_badfqdn", "a_bin", "a_long", "a_longname", "a_comment")}[what]))
     out = []
